@@ -66,6 +66,10 @@ type GwStep struct {
 	Status  int    `json:"st,omitempty"`
 	Tag     int    `json:"tag,omitempty"`
 	Repeat  int    `json:"repeat,omitempty"` // extra back-to-back copies
+	// Behind (discreq): so many in-sequence tunnelling requests (numbers 0.., tags Tag..) are put on the wire directly
+	// behind the connect response that answers the reconnect this disconnect request triggers - a gateway that
+	// has telegrams waiting sends them the moment the connection is up again
+	Behind int `json:"behind,omitempty"`
 }
 
 // ConStep is an action of the application's reader.
@@ -331,6 +335,8 @@ type Sim struct {
 	mu            sync.Mutex
 	nConn, nHb    int
 	nAck, nDisc   int
+	behind        int // requests to put behind the next OK connect response (GwStep.Behind) and their first tag
+	behindTag     int
 	curChan       int // channel of the last OK connect response injected
 	expIn         int // reference receiver: expected sequence number of the next request from the gateway
 	sendsPending  int
@@ -394,8 +400,16 @@ func (s *Sim) injectConnOK(ch int) {
 		if s.ref != nil {
 			s.ref.reset()
 		}
+		n, tag := s.behind, s.behindTag
+		s.behind = 0
+		if !s.Plan.Cfg.TCP {
+			s.expIn = n % 256
+		}
 		s.mu.Unlock()
 		s.inject(&knxnet.ConnRes{Channel: uint8(ch), Status: knxnet.NoError, Control: knxnet.HostInfo{Protocol: knxnet.UDP4}})
+		for k := 0; k < n; k++ {
+			s.inject(&knxnet.TunnelReq{Channel: uint8(ch), SeqNumber: uint8(k), Payload: inMsg(tag+k, s.Plan.Group)})
+		}
 	}
 	if !s.Bubble {
 		deliver()
@@ -571,6 +585,7 @@ func (s *Sim) gwStep(g GwStep) {
 			svc = &knxnet.ConnStateRes{Channel: uint8(ch), Status: knxnet.ErrCode(g.Status)}
 		case "discreq":
 			svc = &knxnet.DiscReq{Channel: uint8(ch), Status: 0, Control: knxnet.HostInfo{Protocol: knxnet.UDP4}}
+			s.behind, s.behindTag = g.Behind, g.Tag
 		case "discres":
 			svc = &knxnet.DiscRes{Channel: uint8(ch), Status: uint8(g.Status)}
 		case "connres":
